@@ -203,3 +203,15 @@ def distribution(scenarios, observations):
             "by_query_type": {t: sum(1 for s in scenarios if s["q"]["t"] == t) for t in SUB},
             "nonempty_covered": sum(1 for o in observations if o and o["covered"]),
             "nonempty_covering": sum(1 for o in observations if o and o["covering"])}
+
+MANIFEST = {
+    "level_text": "Machine-checked proof (Coq 8.16) that the modelled mechanism - per-type SortedKeyList insertion, the bisect "
+                  "window with Python's prefix-tuple ordering, and the two filters - returns, for every history of adds, every "
+                  "duplicate-free set of type names and every query span, exactly the covered / covering annotations as a multiset; "
+                  "the model is tied to /repo on every run by evaluating it inside Coq on the cases the implementation was run on.",
+    "level_note": "Trusted: Coq kernel + vm_compute; hand-written model coq/Index.v; harness building real objects and rendering "
+                  "cases; bisect/insort and tuple-prefix comparison modelled by contract; the set of descendant type names is an "
+                  "input here (C10 proves it is the subtree). Print Assumptions: closed under the global context.",
+    "technique": "Coq proof over an executable Gallina model + in-Coq behavioural correspondence (exhaustive small scopes, random large)",
+    "design_ref": "DESIGN.md section 5, C07",
+}
